@@ -191,7 +191,7 @@ def run(tier: str, replay=None) -> int:
             chk.skip("replayed case outside premise: " + ",".join(why_not(exp[0])))
         return chk.finish()
     from .lattice import variant
-    n = 1500 if tier == "quick" else 40000
+    n = 1500 if tier == "quick" else 15000
     cases = [gen_case(rng) for _ in range(n)]
     variants = [variant(c) for c in cases]
     vidx = [i for i, v in enumerate(variants) if v is not None]
